@@ -555,6 +555,8 @@ class Interp:
             if cv is not None:
                 ti = tinfo(n, self.idx) or (32, True)
                 return const(ti[0], ti[1], cv)
+            if r.get('kind') == 'VarDecl' and r.get('id') not in self.idx.by_id:
+                return ('global', r.get('name'))       # an object outside the repository (std::cout, std::cerr, ...)
             raise AnalysisBroken('reference to unbound %s %s at %s' % (r.get('kind'), r.get('name'), pos(n)))
         if k == 'MemberExpr':
             return self.load(self.lval(n, env), env)
